@@ -124,9 +124,14 @@ func (e *Engine) autoInlinable(fn *ssa.Function, depth int) bool {
 	}
 	e.mu.Unlock()
 	res := e.autoInlinable0(fn, depth)
-	e.mu.Lock()
-	e.inlinable[fn] = res
-	e.mu.Unlock()
+	// a negative answer obtained below the top level may only reflect the depth
+	// limit: cache it only when it was computed with the full budget, so that the
+	// decision does not depend on which function asked first
+	if res || depth == 0 {
+		e.mu.Lock()
+		e.inlinable[fn] = res
+		e.mu.Unlock()
+	}
 	return res
 }
 
@@ -616,6 +621,13 @@ func (c *Ctx) applyContract(fr *Frame, st *State, ct *Contract, callee *ssa.Func
 		st.reach = c.def("reach", "Bool", and(st.reach, not(or(exitConds...))))
 	}
 	c.havocModifies(ct, env, st)
+	// the callee may allocate whatever it modifies (fresh(...) in its postcondition
+	// refers to references between the two allocation marks)
+	if !ct.Pure {
+		na := c.decl("alloc", "Int")
+		c.assume("true", fmt.Sprintf("(>= %s %s)", na, st.alloc))
+		st.alloc = na
+	}
 	// ghost updates: exact where the contract declares them (`ghost g += e`), otherwise
 	// the callee may have charged an unknown amount (counters only grow) unless it is
 	// declared pure / `modifies nothing`
